@@ -19,7 +19,7 @@ RULE = ("fixed item set per VERIF_SEED replayed in N processes (distinct hash se
         "optimized SQL differs from the input (a rule fired); distinct = distinct (item, API)")
 ASSUMPTIONS = ["exceptions are outputs too: their class and message must be identical everywhere"]
 SPEC = {
-    "quick": {"shards": 12, "time_cap": 170, "items": 600},
+    "quick": {"shards": 12, "time_cap": 400, "items": 600},
     "thorough": {"shards": 48, "time_cap": 1500, "items": 2500},
 }
 PAIRS = [("", "duckdb"), ("duckdb", "sqlite"), ("postgres", "mysql"), ("snowflake", "bigquery"), ("", "tsql"), ("mysql", "postgres"),
